@@ -103,6 +103,7 @@ def run(ctx):
 def _run(ctx):
     from harness.replay import segments as rs
     h = rs.SegHarness()
+    h._fresh("plain")   # fail fast when the driver cannot even complete a v5 handshake over this read path
     rep = Reporter(ctx)
     t0 = time.time()
     phases = {}
@@ -165,7 +166,7 @@ def _run(ctx):
     phase("tlc_exhaustive")
 
     # ------------------------------------------------------------------ spec -> code: every edge of every graph
-    replayed = feeds = 0
+    replayed = feeds = diverged = 0
     total_edges = covered_edges = 0
     selftest = 0
     bits_used = {}                    # (config key) -> set of bits flipped
@@ -176,7 +177,7 @@ def _run(ctx):
 
     def run_walk(nodes, w, P, bit=None, retry=None):
         """Replay one walk (node ids). Returns index of the diverging step or None."""
-        nonlocal replayed, feeds
+        nonlocal replayed, feeds, diverged
         st0 = nodes[w[0]]
         lay = rs.layout_from_state(st0, rng=ctx.rng, bit=bit)
         positions = [nodes[n]["nsent"] for n in w[1:]]
@@ -195,6 +196,7 @@ def _run(ctx):
                         "real_offsets": reals, "real_frame_bytes": [len(f.raw) for f in lay.frames],
                         "flipped_bit": lay.corrupt})
         if d:
+            diverged += 1
             rep.add("real v5 connection diverges from Segments.tla at read #%d (model offset %d = real offset %d of %d; "
                     "codec %s, real frames %s, segments %s%s): %s%s" % (
                         d["step"] + 1, d["a"], d["r"], lay.rlen, lay.codec, [len(f.raw) for f in lay.frames],
@@ -295,8 +297,9 @@ def _run(ctx):
         phase("bit_sweep")
     ctx.note("bit_sweep_configs", len(walks_by_cfg))
     ctx.note("bits_flipped", sum(len(v) for v in bits_used.values()))
-    ctx.traces_validated += replayed
+    ctx.traces_validated += replayed - diverged
     ctx.note("behaviours_replayed", replayed)
+    ctx.note("behaviours_diverged", diverged)
     ctx.note("reads_replayed", feeds)
 
     # ------------------------------------------------------------------ code -> spec: recorded runs validated by TLC
